@@ -168,15 +168,16 @@ def _words(rec, reps, values):
     elif cls == S.ATTRIBUTE:
       rec.evaluated("attribute code", v)
       comps = tuple(code.get_color().components)
+      underlined = code.get_text_decoration() is not None and code.get_text_decoration().underline is True
       if det["color"] == "transparent":
-        ok = comps[3] == 0 and code.is_background()
+        ok = comps[3] == 0 and code.is_background() and not underlined        # background codes carry no underline bit (bit 0 = semi-transparent)
       elif det["background"]:
-        ok = code.is_background() and S.rgb_ok(det["color"], comps[:3]) and (comps[3] == 0xFF) == (not det["semi"]) and comps[3] in (0xFF, 0x88)
+        ok = code.is_background() and S.rgb_ok(det["color"], comps[:3]) and (comps[3] == 0xFF) == (not det["semi"]) and comps[3] in (0xFF, 0x88) and not underlined
       else:
         ok = (not code.is_background()) and comps[:3] == S.RGB["black"] and \
             ((code.get_text_decoration() is not None and code.get_text_decoration().underline is True) == det["underline"])
       if not ok:
-        rec.fail("attribute-code", "attribute code", f"attribute {v:04x}: {code.name} {comps} bg={code.is_background()}; CEA-608: {det}", key_w,
+        rec.fail("attribute-code", "attribute code", f"attribute {v:04x}: {code.name} {comps} bg={code.is_background()} decoration={code.get_text_decoration()}; CEA-608: {det}", key_w,
                  replayer="replayers.c17:word", replay_args=key_w)
     elif cls == S.SPECIAL:
       rec.evaluated("special character", v)
